@@ -39,7 +39,7 @@ Definition commit_eqb (a b : commit) := list_eqb Nat.eqb (c_parents a) (c_parent
 Definition store_eqb := list_eqb commit_eqb.
 
 Definition ev_rep (ev : event) : nat :=
-  match ev with ECommit r _ _ | ERead r _ | EPush r | EFetch r | EMerge r _ _ _ | ERemove r _ => r end.
+  match ev with ECommit r _ _ | ERead r _ | EPush r | EFetch r | EMerge r _ _ _ | ERemove r _ | EReopen r _ => r end.
 
 Definition post_agrees (sw : sworld) (r : nat) (out : outcome) (o : obsv) : bool :=
   outcome_eqb out (o_out o) && (negb (o_chk o) ||
